@@ -304,8 +304,12 @@ done:
     ares_conn_state_flags_t flags = ARES_CONN_STATE_READ;
 
     /* When using TFO, the we need to enabling waiting on a write event to
-     * be notified of when a connection is actually established */
-    if (tfo) {
+     * be notified of when a connection is actually established.  That stays
+     * true for any later flush (e.g. one that finds nothing left to write)
+     * until the connection is known to be established, otherwise queries
+     * queued meanwhile are never written. */
+    if (tfo || (conn->flags & ARES_CONN_FLAG_TFO &&
+                !(conn->state_flags & ARES_CONN_STATE_CONNECTED))) {
       flags |= ARES_CONN_STATE_WRITE;
     }
 
